@@ -1,4 +1,205 @@
-import HioModel.Sched.TimeModel
+import HioModel.Sched.TimeSched
+import HioModel.Sched.TimeCycle
+import HioModel.Sched.TimeFlatL
+/-!
+# C03 "Virtual-time scheduling follows the documented cycle model"
+
+In non-real-time mode each cycle advances the scheduler's tyme by exactly one tock.  Within a cycle, due doers run at
+most once each, in enter order, and observe the scheduler's current tyme.  A doer that yields tock t > 0 is next due at
+its previous due tyme plus t (cumulative, so it never drifts), while one that yields 0 or None runs again in the next
+cycle.
+
+Time is an abstract type `τ` (`+`, decidable `≤`, `0`, `==`).  Arithmetic laws, where needed, come from the class
+`LawfulTyme τ` (`Sched/TimeDefs.lean`; instances proved for `Nat` and `Int`, none for `Float`).
+
+Vocabulary: `cycState pool tock k start deeds doers` — `(tyme, deque, doers)` before cycle `k`; `iterAdd start tock k` —
+`start + tock + … + tock`; `recurIds evs` — ids of the `recur` events in trace order; `RT.liveIdsL un` — ids of the live
+forest in deque order (a group before its deeds); `stepLeaf now stock d` — what a cycle at `now` of a scheduler with tock
+`stock` does to one op-free leaf; `nextDue`, `asap` — the model's (= the code's) retyme rule.
+
+For doers nested in tock-0 DoDoers the clause "next due at previous due tyme plus t" is FALSE for the code as it is
+(pre-finding F46): after an asap yield inside a DoDoer the due tyme is `tyme + the DoDoer's tock (0)`, not the tyme of the
+next cycle, so a following positive tock is counted from one scheduler tock too early.  `due_cumulative_fails_nested` is the
+decided witness; `nested_schedule_partial` is what holds (guard G04: `positive* asap*`).
+-/
+set_option linter.unusedSectionVars false
 namespace Hio.Sched
-theorem c03_stub : (1 : Nat) = 1 := rfl
+variable {τ : Type}
+variable [Add τ] [LE τ] [DecidableRel (α := τ) (· ≤ ·)] [OfNat τ 0] [BEq τ]
+
+/-! ### each cycle advances tyme by exactly one tock -/
+
+/-- the tyme at which cycle `k` runs is `start + tock` iterated `k` times with the abstract `+` — literally what the
+floats do; any program, any way the earlier cycles went -/
+theorem tick_exact (pool : List (Spec τ)) (tock start : τ) (k : Nat) (deeds : List (RT τ)) (doers : List Id)
+    {t : τ} {d : List (RT τ)} {ds : List Id} (h : cycState pool tock k start deeds doers = some (t, d, ds)) :
+    t = iterAdd start tock k :=
+  cycState_tyme pool tock k start deeds doers h
+
+/-- the tyme `do()` leaves behind is `start` ticked once per completed cycle — for every way the run ends -/
+theorem tick_exact_run (pool : List (Spec τ)) (tock start : τ) (limit : Option τ) (fuel : Nat) (specs : List (Spec τ)) :
+    (doistDo pool tock start limit fuel specs).tyme
+      = iterAdd start tock (doistDo pool tock start limit fuel specs).cycles := by
+  unfold doistDo
+  rcases enterList start specs with ⟨es, deeds, b⟩
+  cases b with
+  | true => rfl
+  | false =>
+    obtain ⟨k, h1, h2⟩ := doLoop_tyme_cycles pool tock (limit.map (start + ·)) fuel 0 start deeds (specs.map Spec.id)
+    simp only [h1, h2, Nat.zero_add]
+
+/-! ### within a cycle: current tyme, at most once, in order -/
+
+/-- one pass of ANY scheduler (Doist or DoDoer, `stock` its tock) over its deque `un`, whatever the doers do (ops,
+faults, nesting): every event carries the scheduler's current tyme, and the resumed ids — at every depth — form a
+sublist of the live forest in deque order -/
+theorem once_per_cycle_in_order (pool : List (Spec τ)) (now stock : τ) (sid : Id) (un : List (RT τ)) (c : Cyc τ) :
+    (∀ e ∈ (runCycle pool now stock sid un c).1, e.tyme = now)
+      ∧ (recurIds (runCycle pool now stock sid un c).1).Sublist (RT.liveIdsL un) :=
+  runCycle_cycleOK pool now stock sid un c
+
+/-- hence no doer is resumed twice in one cycle when live ids are distinct -/
+theorem once_per_cycle (pool : List (Spec τ)) (now stock : τ) (sid : Id) (un : List (RT τ)) (c : Cyc τ)
+    (hn : (RT.liveIdsL un).Nodup) : (recurIds (runCycle pool now stock sid un c).1).Nodup :=
+  (runCycle_cycleOK pool now stock sid un c).2.nodup hn
+
+/-! ### due tymes (one step, at every scheduler level) -/
+
+/-- tie: a leaf at the head of the not-yet-visited deeds whose script is op-free is handled exactly as `stepLeaf` says,
+and the rest of the pass goes on with the deed it leaves — whatever the other doers are -/
+theorem leaf_pass_is_stepLeaf (pool : List (Spec τ)) (now stock : τ) (sid i : Id) (r : τ) (s : List (Step τ))
+    (un : List (RT τ)) (c : Cyc τ) (hp : plainSteps s = true) (hg : c.gone.contains i = false) :
+    runCycle pool now stock sid (.leaf i r s :: un) c =
+      ((stepLeaf now stock (.leaf i r s)).1
+          ++ (runCycle pool now stock sid un { c with pr := c.pr ++ (stepLeaf now stock (.leaf i r s)).2.toList }).1,
+       (runCycle pool now stock sid un { c with pr := c.pr ++ (stepLeaf now stock (.leaf i r s)).2.toList }).2) :=
+  runCycle_leaf_plain pool now stock sid i r s un c hp hg
+
+/-- cumulative: a due doer (due tyme `r ≤ now`) that yields `x` with `x ≠ 0` is resumed now and its due tyme becomes
+`r + x` — independent of `now` (when it actually ran) and of the scheduler's tock: it never drifts -/
+theorem due_cumulative (now stock r x : τ) (i : Id) (ops : List Op) (rest : List (Step τ))
+    (hr : r ≤ now) (hx : (x == 0) = false) :
+    stepLeaf now stock (.leaf i r (⟨ops, .yieldT (some x)⟩ :: rest)) = ([ev i .recur now], some (.leaf i (r + x) rest)) := by
+  simp [stepLeaf, hr, headStep, nextDue, asap, hx]
+
+/-- a doer that is not yet due is not resumed and keeps its due tyme: so it is resumed in the FIRST cycle whose tyme
+reaches its due tyme (`resumed_when_due`) -/
+theorem waits_until_due (now stock r : τ) (i : Id) (s : List (Step τ)) (hr : ¬ r ≤ now) :
+    stepLeaf now stock (.leaf i r s) = ([], some (.leaf i r s)) := by
+  simp [stepLeaf, hr]
+
+theorem resumed_when_due (now stock r : τ) (i : Id) (s : List (Step τ)) (hr : r ≤ now)
+    (hnr : ∀ x, (headStep s).1.out ≠ .raise x) :
+    (stepLeaf now stock (.leaf i r s)).1.head? = some (ev i .recur now) := by
+  simp only [stepLeaf, hr, if_true]
+  cases ho : (headStep s).1.out with
+  | raise x => exact absurd ho (hnr x)
+  | ret v => rfl
+  | yieldT t => rfl
+
+/-- asap: a due doer that yields 0 or None gets due tyme `now + scheduler tock` -/
+theorem asap_due_tyme (now stock r : τ) (i : Id) (ops : List Op) (t : Option τ) (rest : List (Step τ))
+    (hr : r ≤ now) (ha : asap t = true) :
+    stepLeaf now stock (.leaf i r (⟨ops, .yieldT t⟩ :: rest)) = ([ev i .recur now], some (.leaf i (now + stock) rest)) := by
+  simp [stepLeaf, hr, headStep, nextDue, ha]
+
+/-! ### several cycles of a flat op-free deque -/
+
+/-- non-interference: after `k` cycles of a deque of op-free doers the tyme is `now + tock` iterated `k` times, nobody
+raised, and the deque is the original one, in the original order, with every doer advanced ON ITS OWN (`leafAfter`):
+a doer's schedule is a function of its own script only -/
+theorem flat_cycles_independent (pool : List (Spec τ)) (tock : τ) (k : Nat) (now : τ) (F : List (RT τ)) (doers : List Id)
+    (h : F.all RT.plainLeaf = true) :
+    cycState pool tock k now F doers = some (iterAdd now tock k, F.filterMap (leafAfter tock k now), doers) :=
+  cycState_flat pool tock k now F doers h
+
+/-- … and the events of cycle `k` are those of each doer taken on its own (`stepLeaf`), in deque order -/
+theorem flat_cycle_events (pool : List (Spec τ)) (tock : τ) (k : Nat) (now : τ) (F : List (RT τ)) (doers : List Id)
+    (h : F.all RT.plainLeaf = true) :
+    ∃ t D ds, cycState pool tock k now F doers = some (t, D, ds) ∧ t = iterAdd now tock k
+      ∧ (runCycle pool t tock 0 D { doers := ds }).1 = flatEvs t tock D
+      ∧ D = F.filterMap (leafAfter tock k now) :=
+  cycle_events_flat pool tock k now F doers h
+
+/-- DUE_CUMULATIVE over cycles: a doer with due tyme `r ≤ now` that yields `x ≠ 0` in the cycle at `now` gets due tyme
+`r + x`; counting the following cycles `now + tock, now + tock + tock, …` it emits nothing while the tyme has not reached
+`r + x`, and is resumed in the FIRST cycle `j` whose tyme is `≥ r + x` — whatever `now` was (it never drifts) -/
+theorem due_cumulative_first_cycle (tock now r x : τ) (i : Id) (ops : List Op) (rest : List (Step τ))
+    (hr : r ≤ now) (hx : (x == 0) = false) (j : Nat)
+    (hw : ∀ m, m < j → ¬ r + x ≤ iterAdd (now + tock) tock m) (hd : r + x ≤ iterAdd (now + tock) tock j)
+    (hnr : ∀ e, (headStep rest).1.out ≠ .raise e) :
+    ∃ d, stepLeaf now tock (.leaf i r (⟨ops, .yieldT (some x)⟩ :: rest)) = ([ev i .recur now], some d)
+      ∧ (∀ m, m < j → leafEvsAt tock m (now + tock) d = [])
+      ∧ (leafEvsAt tock j (now + tock) d).head? = some (ev i .recur (iterAdd (now + tock) tock j)) :=
+  ⟨.leaf i (r + x) rest, due_cumulative now tock r x i ops rest hr hx,
+    (waits_through tock i (r + x) rest j (now + tock) hw).2,
+    resumed_in_first_due_cycle tock i (r + x) rest j (now + tock) hw hd hnr⟩
+
+section laws
+variable [LawfulTyme τ]
+
+/-- … which is due in the very next cycle (tyme `now + tock`): under the Doist (`stock = tock`) and inside a tock-0
+DoDoer (`stock = 0`, which itself is re-run asap by its parent) -/
+theorem asap_next_cycle {tock now stock r : τ} (h0 : 0 ≤ tock) (hst : stock = tock ∨ stock = 0)
+    (i : Id) (ops : List Op) (t : Option τ) (rest : List (Step τ)) (hr : r ≤ now) (ha : asap t = true)
+    (hnr : ∀ x, (headStep rest).1.out ≠ .raise x) (stock' : τ) :
+    ∃ d, (stepLeaf now stock (.leaf i r (⟨ops, .yieldT t⟩ :: rest))).2 = some d
+      ∧ (stepLeaf (now + tock) stock' d).1.head? = some (ev i .recur (now + tock)) := by
+  refine ⟨.leaf i (now + stock) rest, by rw [asap_due_tyme now stock r i ops t rest hr ha], ?_⟩
+  apply resumed_when_due _ _ _ _ _ _ hnr
+  rcases hst with e | e
+  · rw [e]; exact LawfulTyme.le_refl _
+  · rw [e, LawfulTyme.add_zero]; exact LawfulTyme.le_add now tock h0
+
+/-- once due, always due (tymes of later cycles only grow): "the first cycle whose tyme ≥ due" is well defined -/
+theorem stays_due {tock now r : τ} (h0 : 0 ≤ tock) (hr : r ≤ now) : r ≤ now + tock :=
+  LawfulTyme.le_trans _ _ _ hr (LawfulTyme.le_add now tock h0)
+
+/-- PARTIAL (guard G04, scripts `positive* asap*`): a doer nested in tock-0 DoDoers, at any depth, is resumed at exactly
+the tymes at which it is resumed when listed directly under the Doist — so all flat clauses carry over -/
+theorem nested_schedule_partial (keep : Id → Bool) (pool : List (Spec τ)) (tock start : τ) (limit : Option τ)
+    (fuel : Nat) {p q : List (Spec τ)} (h0 : 0 ≤ tock) (hF : Flattens keep p q) (hG : Spec.allStepsL g04 p = true)
+    (i : Id) (hk : keep i = true) :
+    recurTymes i (doistDo pool tock start limit fuel p).evs = recurTymes i (doistDo pool tock start limit fuel q).evs := by
+  have hv := hF.sameView hG pool h0 start limit fuel
+  rw [← keepView_recurTymes keep i hk, ← keepView_recurTymes keep i hk (doistDo pool tock start limit fuel q).evs, hv.1]
+
+end laws
+
+/-! ### the witness of pre-finding F46 (τ := Nat) and tests -/
+
+def yN (t : Option Nat) : Step Nat := ⟨[], .yieldT t⟩
+def scriptF46 : List (Step Nat) := [yN (some 0), yN (some 3), yN (some 0), yN (some 0)]
+def busy : Spec Nat := .leaf 2 .ok [yN (some 0), yN (some 0), yN (some 0), yN (some 0), yN (some 0), yN (some 0), yN (some 0)]
+
+/-- the cumulative clause FAILS for a doer inside a tock-0 DoDoer that yields a positive tock after an asap yield: the
+property (and the flat run) say 0, 1, 4, 5, 6 — `sched` — the nested doer is resumed at 0, 1, 3, 4, 5 -/
+theorem due_cumulative_fails_nested :
+    recurTymes 1 (doistDo [] 1 0 none 100 [.leaf 1 .ok scriptF46, busy]).evs = sched 1 8 0 0 scriptF46
+    ∧ recurTymes 1 (doistDo [] 1 0 none 100 [.group 9 0 false [.leaf 1 .ok scriptF46] [], busy]).evs ≠ sched 1 8 0 0 scriptF46 := by
+  decide
+
+/-- non-vacuity of `due_cumulative_first_cycle` (τ := Nat): due tyme 2, resumed late at 5, yields 7 at tock 3: new due 9
+(not 12); the cycle at 8 passes without an event, the doer is resumed in the cycle at 11 (j = 1) -/
+example : ∃ d, stepLeaf 5 3 (.leaf 1 2 (⟨[], .yieldT (some 7)⟩ :: [yN none])) = ([ev 1 .recur 5], some d)
+      ∧ (∀ m, m < 1 → leafEvsAt 3 m (5 + 3) d = [])
+      ∧ (leafEvsAt 3 1 (5 + 3) d).head? = some (ev 1 .recur (iterAdd (5 + 3) 3 1)) :=
+  due_cumulative_first_cycle 3 5 2 7 1 [] [yN none] (by decide) (by decide) 1
+    (fun m hm => by have : m = 0 := by omega
+                    subst this; decide)
+    (by decide) (by intro e; simp [headStep, yN])
+
+/-- test: `sched` on the witness script -/
+example : sched 1 8 0 0 scriptF46 = [0, 1, 4, 5, 6] := by decide
+
+/-- non-vacuity of `nested_schedule_partial`: two levels of nesting, G04 scripts -/
+example : recurTymes 1 (doistDo [] 2 7 (some 9) 100
+      [.group 9 0 false [.group 8 0 false [.leaf 1 .ok [yN (some 3), yN (some 5), yN none, yN (some 0)]] []] [], busy]).evs
+    = recurTymes 1 (doistDo [] 2 7 (some 9) 100 [.leaf 1 .ok [yN (some 3), yN (some 5), yN none, yN (some 0)], busy]).evs :=
+  nested_schedule_partial (fun i => i != 9 && i != 8) [] 2 7 (some 9) 100 (by decide)
+    (Flattens.group (q1 := [_]) (q2 := [_]) (by decide)
+      (Flattens.group (q1 := [_]) (q2 := []) (by decide) (Flattens.leaf (by decide) (by decide) trivial Flattens.nil) Flattens.nil)
+      (Flattens.leaf (by decide) (by decide) trivial Flattens.nil))
+    (by decide) 1 (by decide)
+
 end Hio.Sched
